@@ -369,8 +369,8 @@ Section Calls.
       pose proof (pres_framed_pop st 2 (Some (VList l)) _ W (pres_list_method k (push_frame st 2 (Some (VList l))) l items m args)) as H.
       destruct (list_method k _ l items m args); cbn [bind]; try exact I; exact H.
     - intros W. destruct (hget (push_frame st 2 (Some (VDict l))) l) as [[?|kvs|? ?]|]; try exact I.
-      pose proof (pres_framed_pop st 2 (Some (VDict l)) _ W (pres_dict_method (push_frame st 2 (Some (VDict l))) l kvs m args)) as H.
-      destruct (dict_method _ l kvs m args); cbn [bind]; try exact I; exact H.
+      pose proof (pres_framed_pop st 2 (Some (VDict l)) _ W (pres_dict_method k (push_frame st 2 (Some (VDict l))) l kvs m args)) as H.
+      destruct (dict_method k _ l kvs m args); cbn [bind]; try exact I; exact H.
     - (* object *)
       destruct (hget st l) as [[?|?|c props]|]; try (intros _; exact I).
       destruct (nth_error (classes st) c) as [cd|]; [|intros _; exact I].
